@@ -18,23 +18,32 @@
 
 using dz::Box;
 
+static uint64_t iso_digest(const Box& b) { return dz::fnv(b.probe() + " || " + b.xprobe(b)); }
+
 static std::string run_history(const std::string& kind, const std::vector<std::string>& ops) {
     const dz::Maker& mk = dz::kinds().at(kind);
     std::unique_ptr<Box> slot[3];
+    int par[3] = {-1, -1, -1};      // lineage of each live slot: objects related by copy-construction / assignment denote the same
+    int fresh = 0;                  // domain and must be interchangeable (independently built objects need not share a representation)
     std::string out;
     auto add = [&](int k) {
+        // the probe of slot k, and the exchange probe with another live slot of the same lineage (else with itself):
+        // elements created through that object are used through slot k
+        int partner = k;
+        for (int j = 0; j < 3; ++j) if (j != k && slot[j] && par[j] == par[k]) { partner = j; break; }
         char buf[64];
-        snprintf(buf, sizeof buf, "%s%d:%llx", out.empty() ? "" : " ", k, (unsigned long long)dz::fnv(slot[k]->probe()));
+        snprintf(buf, sizeof buf, "%s%d:%llx", out.empty() ? "" : " ", k,
+                 (unsigned long long)dz::fnv(slot[k]->probe() + " || " + slot[k]->xprobe(*slot[partner])));
         out += buf;
     };
     for (const std::string& op : ops) {
         int k = op[1] - '0';
         switch (op[0]) {
-            case 'N': slot[k].reset(mk(op[2] - '0')); break;
-            case 'C': slot[k].reset(slot[op[2] - '0']->copy()); break;
-            case 'A': slot[k]->assign(*slot[op[2] - '0']); break;
+            case 'N': slot[k].reset(mk(op[2] - '0')); par[k] = fresh++; break;
+            case 'C': slot[k].reset(slot[op[2] - '0']->copy()); par[k] = par[op[2] - '0']; break;
+            case 'A': slot[k]->assign(*slot[op[2] - '0']); par[k] = par[op[2] - '0']; break;
             case 'S': slot[k]->selfassign(); break;
-            case 'D': slot[k].reset(); break;
+            case 'D': slot[k].reset(); par[k] = -1; break;
             case 'P': add(k); break;
         }
     }
@@ -122,9 +131,10 @@ int main(int argc, char** argv) {
         }
         for (auto& kv : by) {
             if (!dz::kinds().count(kv.first)) continue;
+            dz::enter_kind(kv.first);
             for (int p = 0; p < 2; ++p) {
                 std::unique_ptr<Box> b(dz::kinds().at(kv.first)(p));
-                printf("iso %s %d = %llx\n", kv.first.c_str(), p, (unsigned long long)dz::fnv(b->probe()));
+                printf("iso %s %d = %llx\n", kv.first.c_str(), p, (unsigned long long)iso_digest(*b));
             }
             for (size_t i = 0; i < kv.second.size(); ++i) run_batch(kv.first, kv.second, i, i + 1);
         }
@@ -138,9 +148,10 @@ int main(int argc, char** argv) {
     for (const auto& kv : dz::kinds()) {
         const std::string& kind = kv.first;
         if (!only.empty() && only != kind) continue;
+        dz::enter_kind(kind);
         for (int p = 0; p < 2; ++p) {
             std::unique_ptr<Box> b(kv.second(p));
-            printf("iso %s %d = %llx\n", kind.c_str(), p, (unsigned long long)dz::fnv(b->probe()));
+            printf("iso %s %d = %llx\n", kind.c_str(), p, (unsigned long long)iso_digest(*b));
         }
         std::vector<std::vector<std::string>> hs;
         for (int len = 1; len <= exh; ++len) {
